@@ -397,7 +397,7 @@ func init() {
 		Exec:      c10Exec,
 		Judge:     c10Judge,
 		Describe:  c10Describe,
-		QuickN:    4000,
+		QuickN:    4000*2,
 		ThoroughN: 200000,
 	})
 }
